@@ -805,7 +805,13 @@ fn execute(p: &Programs, n_calls: &mut u64, probes: &mut FxHashMap<&'static str,
                 if *by == 0 {
                     expect_same_as = Some(x);
                 }
-                Some(if *signed { ctx.sign_extend(x, *by) } else { ctx.zero_extend(x, *by) })
+                Some(if pcs[c] % 2 == 0 {
+                    ctx.extend(x, *by, *signed)
+                } else if *signed {
+                    ctx.sign_extend(x, *by)
+                } else {
+                    ctx.zero_extend(x, *by)
+                })
             }
             Call::Ite(cnd, a, b) => Some(ctx.ite(arg(*cnd), arg(*a), arg(*b))),
             Call::ArrConst(a, iw) => Some(ctx.array_const(arg(*a), *iw)),
@@ -863,6 +869,13 @@ fn execute(p: &Programs, n_calls: &mut u64, probes: &mut FxHashMap<&'static str,
                 None
             }
         };
+        if let (Some(e), Call::Lit(bits, _)) = (out, call) {
+            // `is_zero` reads the literal back through the value interner
+            let want = bits.chars().all(|c| c == '0');
+            if ctx.is_zero(e) != want {
+                return Err(mk("WrongNode", "is_zero", format!("is_zero of the literal {bits} answers {}", !want)));
+            }
+        }
         if let Some(e) = out {
             if let Some(same) = expect_same_as {
                 if e != same {
